@@ -60,7 +60,7 @@ pub fn gen_op(r: &mut Rng, kind: OpKind) -> Op {
             vec![li, n, policy, r.below(6) << 1, r.below(4)]
         }
         ItNext | ItNextBack | ItLast => vec![slot(r), r.below(2)],
-        ItNth | ItNthBack => vec![slot(r), r.below(12), r.below(2)],
+        ItNth | ItNthBack => vec![slot(r), if r.chance(1, 25) { 100 + r.below(4) } else { r.below(12) }, r.below(2)],
         ItWrite => vec![slot(r), r.below(9)],
         ItFold | ItRfold => vec![slot(r), r.below(3)],
         ItCollect => vec![slot(r), r.below(4), len_idx(r)],
